@@ -73,10 +73,20 @@ func cmdCheck(repo, verif string, args []string) int {
 	cr := &checkResult{prop: prop, tier: tier}
 	var ids []string
 	for id, c := range p.contracts.Funcs {
+		tagged := false
 		for _, pr := range c.Props {
 			if pr == prop {
-				ids = append(ids, id)
+				tagged = true
 			}
+		}
+		// C02 (no crash, no hang) is the union of every contract that promises no_panic, whatever else it
+		// is tagged with: a broken obligation anywhere in such a function voids its panic-freedom proof and
+		// that of its callers
+		if prop == "C02" && c.NoPanic && !c.Trusted {
+			tagged = true
+		}
+		if tagged {
+			ids = append(ids, id)
 		}
 	}
 	sort.Strings(ids)
@@ -420,9 +430,14 @@ func writeEvidence(p *Program, cr *checkResult, verif string, seed, violations i
 		"wall_s":      round3(cr.wall),
 		"violations":  violations,
 	}
-	os.MkdirAll(filepath.Join(verif, "evidence"), 0o755)
+	evDir := filepath.Join(verif, "evidence")
+	if os.Getenv("GOVC_REPO") != "" || os.Getenv("GOVC_SELFTEST") != "" {
+		// a run on a scratch copy (self-test, mutation trials) must not overwrite the evidence of /repo
+		evDir = filepath.Join(verif, "out", "scratch-evidence")
+	}
+	os.MkdirAll(evDir, 0o755)
 	b, _ := json.MarshalIndent(ev, "", " ")
-	os.WriteFile(filepath.Join(verif, "evidence", cr.prop+".json"), b, 0o644)
+	os.WriteFile(filepath.Join(evDir, cr.prop+".json"), b, 0o644)
 }
 
 func round3(x float64) float64 { return float64(int(x*1000+0.5)) / 1000 }
